@@ -856,7 +856,7 @@ func (c *Ctx) checkFanInOrder(rule string) {
 	L := c.L
 	L.Rule(rule, "for every channel with several concurrent senders (send inside a goroutine launched in a loop, or in two goroutines): every consumer loop ranging over it (in the creating function or in callers receiving it as a result) must be order-insensitive (per-item keyed writes, exact commutative updates); output calls or ordered insertion in arrival order are violations")
 	n := 0
-	for _, F := range c.P.SrcFuncs() {
+	for _, F := range c.srcFuncs() {
 		if F.Parent() != nil {
 			continue
 		}
